@@ -16,7 +16,10 @@ CASES = [
     Case('storeuold_aliases', 'pySDC/implementations/convergence_controller_classes/store_uold.py', 'L.uold[i] = L.prob.dtype_u(L.u[i])', 'L.uold[i] = L.u[i]', 'C13.R4', 'StoreUOld'),
     Case('predict_shares_u0', 'pySDC/core/sweeper.py', "            if self.params.initial_guess == 'spread':\n                L.u[m] = P.dtype_u(L.u[0])\n", "            if self.params.initial_guess == 'spread':\n                L.u[m] = L.u[0]\n", 'C13.R4', 'Sweeper.predict'),
     Case('uend_from_foreign_object', SW + 'explicit.py', '            L.uend = P.dtype_u(L.u[-1])\n', '            L.uend = L.tau[-1]\n', 'C13.R4', 'explicit.compute_end_point'),
+    Case('init_step_keeps_callers_object_when_type_matches', 'pySDC/core/step.py', "        self.levels[0].u[0] = P.dtype_u(u0)", "        self.levels[0].u[0] = u0 if type(u0) is P.dtype_u else P.dtype_u(u0)", 'C13.R4', 'Step.init_step'),
+    Case('uend_alias_where_nodes_are_written_in_place', 'pySDC/implementations/sweeper_classes/generic_implicit.py', "            L.uend = P.dtype_u(L.u[-1])", "            L.uend = L.u[-1]", 'C13.R4', 'generic_implicit.compute_end_point', note='SemiImplicitDAE delegates here and overwrites node values in place in the next sweep'),
     # twins
+    Case('twin_uend_alias_without_inplace_writers', 'pySDC/implementations/sweeper_classes/explicit.py', "            L.uend = P.dtype_u(L.u[-1])", "            L.uend = L.u[-1]", benign=True, note='no sweeper resolving to explicit.compute_end_point writes node values in place: alias is the documented exception (as in Runge_Kutta / Multistep today)'),
     Case('twin_alloc_in_both_arms', SW + 'verlet.py', '            L.u[m + 1] = P.dtype_u(integral[m])\n', '            if m % 2 == 0:\n                L.u[m + 1] = P.dtype_u(integral[m])\n            else:\n                L.u[m + 1] = P.dtype_u(integral[m])\n', benign=True, note='hmm: changes the C02 signature but not C13'),
     Case('twin_helper_dunder', DT + 'particles.py', "    def __abs__(self):\n        \"\"\"\n        Overloading the abs operator", "    def __repr__(self):\n        return 'particles'\n\n    def __abs__(self):\n        \"\"\"\n        Overloading the abs operator", benign=True),
 ]
